@@ -390,6 +390,20 @@ class History(object):
         self.t = t
         return {"new_pages": 0}
 
+    def op_overwrite(self, n):
+        """close, then open the same folder again with overwrite=True (a fresh index on the old files)"""
+        E = self.E
+        folder = self.opts["folder"]
+        E.call("close", self.t.close, _allowed=())
+        ok, t = E.call("overwrite", lambda: E.Traph(folder=folder, overwrite=True, default_webentity_creation_rule=self.default_pattern(),
+                                                     webentity_creation_rules={}), _allowed=())
+        self.t = t
+        d = self.ref.default_rule
+        fresh = Ref()
+        fresh.default_rule = d
+        self.ref.__dict__.update(fresh.__dict__)
+        return {"new_pages": 0}
+
     def op_clear(self, n):
         E = self.E
         ok, _ = E.call("clear", self.t.clear, self.default_pattern(), {})
